@@ -362,7 +362,19 @@ def main():
                 "path": "/verif/harness/lib/tlc.py",
                 "serves_properties": sorted(CHECKS),
                 "kind_free_text": "TLC 1.8 model checking of explicit TLA+ specifications under /verif/spec + batch trace validation of observations of the real code + replay of TLC-generated cases/behaviours into the real code",
-            }
+            },
+            {
+                "name": "system composition SbLoad (runs inside ./check C19)",
+                "path": "/verif/harness/sys_sbload.py",
+                "serves_properties": ["C19", "C04", "C10"],
+                "kind_free_text": "spec/SYS/SbLoadTrace.tla composes BdProg (C19), the SB 2.1 ROM automaton (C04) and the mboot link (C10): BD text -> nxpimage / classes -> receive-sb-file over the device twin -> independent ROM executor, decided by TLC",
+            },
+            {
+                "name": "extras: debug mailbox (./check sys_dbgmbox; not a listed property, observations only, always exit 0 unless the machinery fails)",
+                "path": "/verif/harness/sys_dbgmbox.py",
+                "serves_properties": [],
+                "kind_free_text": "spec/SYS/DbgMbox.tla: design model device || DebugMailboxCommand.run as built || failing probe, model checked (host as built refuted); spec/SYS/DbgMboxTrace.tla: register accesses of the real code through a probe twin validated by TLC; results in evidence/extras/sys_dbgmbox.json",
+            },
         ],
         "checks": checks,
         "not_applicable": na,
